@@ -152,6 +152,10 @@ def gen_line(rng, pool, ctx=None, stable_only=False):
                 approx.append(set(approx[o]))
             elif x < 0.94 and len(impl_of) < 5:
                 b = rng.randrange(len(impl_of))
+                if impl == "nr" and impl_of[b] == "nr":
+                    # the harness holds a NativeHashRecord behind a pointer, which ConcatVal's type switch (on the value
+                    # type) does not recognise as the same native type: the harness cannot represent this call faithfully
+                    continue
                 ops.append(f"cat {o} {b}")
                 # result type: same native type for two equal native maps, else HashMapOfValue / HashRecordOfValue
                 if impl == impl_of[b] and impl in ("nm", "nk", "nr"):
